@@ -69,6 +69,18 @@ JOBS = [
      {"interface GigabitEthernet1": {"no ip address": {}, "description b": {}}, "hostname r": {}}, None, False),
     ("arista", None, {"router bgp 1": {"no neighbor 1.1.1.1 shutdown": {}, "neighbor 1.1.1.1 remote-as 2": {}}},
      {"router bgp 1": {"neighbor 1.1.1.1 remote-as 3": {}}}, None, False),
+    # reference tracking (generator A refers to what generator B defines): two devices share the DEFINITION text but refer
+    # to it from different blocks; the 7th element is (referring rows, defining rows) fed to RefTracker
+    ("arista", None, {}, {"router bgp 65000": {"neighbor 192.0.2.1 route-map RM_SPINE in": {}},
+                          "route-map RM_SPINE permit 10": {"match ip address prefix-list PL_LO": {}},
+                          "ip prefix-list PL_LO seq 10 permit 10.0.0.0/8 le 32": {}}, None, False,
+     (["route-map RM_SPINE permit 10"], ["ip prefix-list PL_LO seq 10 permit 10.0.0.0/8 le 32"])),
+    ("arista", None, {}, {"router bgp 65000": {"neighbor 192.0.2.1 route-map RM_TOR in": {}},
+                          "route-map RM_TOR permit 10": {"match ip address prefix-list PL_LO": {}},
+                          "ip prefix-list PL_LO seq 10 permit 10.0.0.0/8 le 32": {}}, None, False,
+     (["route-map RM_TOR permit 10"], ["ip prefix-list PL_LO seq 10 permit 10.0.0.0/8 le 32"])),
+    # the only shipped rulebook with top-level %context rows
+    ("aruba", None, {"hostname a": {}}, {"hostname b": {}, "wlan ssid-profile x": {"essid x": {}}}, None, False),
 ]
 
 
@@ -106,7 +118,8 @@ def run_job(j):
     from annet.vendors import registry_connector
     from annet.annlib.rbparser.acl import compile_acl_text
     from annet.patching import Orderer
-    vendor, rbtext, old, new, acl, comments = JOBS[j]
+    vendor, rbtext, old, new, acl, comments = JOBS[j][:6]
+    refs = JOBS[j][6] if len(JOBS[j]) > 6 else None
     if vendor.startswith("model:"):
         from annet.annlib.netdev.views.hardware import HardwareView
         hw = HardwareView(vendor[6:], None)
@@ -117,14 +130,33 @@ def run_job(j):
     old_t, new_t = tree(old), tree(new)
     snap_old, snap_new, snap_rb = tree_to_json(old_t), tree_to_json(new_t), dump_rb(rb)
     acl_rules = compile_acl_text(acl, hw.vendor) if acl else None
-    diff, patch = api._diff_and_patch(dev, old_t, new_t, acl_rules, None, comments, rb=rb)
+    ref_track = None
+    if refs:
+        from annet.reference import RefTracker
+
+        class _Refers:
+            pass
+
+        class _Defines:
+            pass
+        ref_track = RefTracker()
+        ref_track.add(_Refers, _Defines)
+        ref_track.config(_Refers, tree({r: new[r] for r in refs[0]}))
+        ref_track.config(_Defines, tree({r: new[r] for r in refs[1]}))
+    diff, patch = api._diff_and_patch(dev, old_t, new_t, acl_rules, None, comments, ref_track=ref_track, rb=rb)
     fmt = registry_connector.get().match(hw).make_formatter()
-    ordered = Orderer(rb["ordering"], hw.vendor).order_config(new_t)
+    orderer = Orderer(rb["ordering"], hw.vendor)
+    if ref_track:
+        orderer.ref_insert(ref_track)
+    ordered = orderer.order_config(new_t)
     res = {
         "diff": plain_diff(diff),
         "cmds": [list(p) for p in fmt.cmd_paths(patch)],
         "patch_text": fmt.patch(patch),
         "ordered": tree_to_json(ordered),
+        # the metadata deploy rules are matched against, and the compiled rulebook itself
+        "patch_json": json.loads(json.dumps(patch.to_json(), default=repr)),
+        "rulebook": json.loads(json.dumps(dump_rb(rb), default=repr)),
     }
     mutated = []
     if tree_to_json(old_t) != snap_old:
@@ -137,12 +169,13 @@ def run_job(j):
 
 
 _fresh = {}
+_ROOT = os.path.dirname(os.path.dirname(os.path.dirname(os.path.abspath(__file__))))
 
 
 def fresh(j):
     if j not in _fresh:
-        out = subprocess.run([sys.executable, "-m", "vt.harness.c20", "fresh", str(j)], capture_output=True, text=True, cwd="/verif",
-                             env=dict(os.environ, PYTHONPATH="/verif" + (os.pathsep + os.environ["VT_REPO"] if os.environ.get("VT_REPO") else ""), PYTHONDONTWRITEBYTECODE="1", PYTHONHASHSEED="0"))
+        out = subprocess.run([sys.executable, "-m", "vt.harness.c20", "fresh", str(j)], capture_output=True, text=True, cwd=_ROOT,
+                             env=dict(os.environ, PYTHONPATH=_ROOT + (os.pathsep + os.environ["VT_REPO"] if os.environ.get("VT_REPO") else ""), PYTHONDONTWRITEBYTECODE="1", PYTHONHASHSEED="0"))
         line = [ln for ln in out.stdout.splitlines() if ln.startswith("RESULT ")]
         if not line:
             raise RuntimeError("fresh run failed: %s" % (out.stdout + out.stderr)[-600:])
